@@ -259,6 +259,9 @@ class Tr:
         return out + ("(" + ", ".join(names) + ")" if len(names) > 1 else names[0])
 
     def aug(self, s, env):
+        if isinstance(s.op, ast.Mod):
+            # x %= m  is  x = x % m
+            return self.ex(ast.BinOp(left=ast.Name(id=self.tname(s.target), ctx=ast.Load()), op=ast.Mod(), right=s.value), env)
         ops = {ast.Add: "+", ast.Sub: "-", ast.Mult: "*", ast.Div: "/"}
         for k, o in ops.items():
             if isinstance(s.op, k):
@@ -445,7 +448,7 @@ def translate_call_arg(repo, relpath, qualname, name, func, argno, opaque_exprs)
     return "Definition %s %s : R :=\n  %s.\n" % (name, sig, body)
 
 
-def translate_segment(repo, relpath, qualname, name, first, last, outputs, inputs=(), extra_sig="", **kw):
+def translate_segment(repo, relpath, qualname, name, first, last, outputs, inputs=(), extra_sig="", triples=(), **kw):
     """The contiguous run of top-level statements of [qualname] from the FIRST assignment to the name [first] up to and
     including the LAST assignment (plain or augmented, possibly inside a top-level if) to the name [last], read as a function
     from [inputs] (real parameters, plus the opaque sub-expressions in kw['opaque_exprs']) to the tuple of [outputs]."""
@@ -468,12 +471,13 @@ def translate_segment(repo, relpath, qualname, name, first, last, outputs, input
     bools = kw.pop("bool_inputs", ())
     tr = Tr(bools=bools, **kw)
     ret = ast.Return(value=ast.Tuple(elts=[ast.Name(id=o, ctx=ast.Load()) for o in outputs], ctx=ast.Load()))
-    body = tr.block(list(seg) + [ret], frozenset(inputs), set())
+    body = tr.block(list(seg) + [ret], frozenset(inputs), set(triples))
     # the tuple is returned as a Gallina tuple, not a list
     if body.rstrip().endswith("]"):
         k = body.rindex("[")
         body = body[:k] + "(" + body[k + 1:].rstrip()[:-1].replace(";", ",") + ")"
-    sig = " ".join(["(%s : bool)" % b for b in bools] + ["(%s : R)" % i for i in inputs] + ["(%s : R)" % v for v in tr.opaque_exprs.values()])
+    sig = " ".join(["(%s : bool)" % b for b in bools] + ["(%s : R * R * R)" % t for t in triples] + ["(%s : R)" % i for i in inputs]
+                   + ["(%s : R)" % v for v in tr.opaque_exprs.values()])
     return "Definition %s %s %s : %s :=\n  %s.\n" % (name, extra_sig, sig, " * ".join(["R"] * len(outputs)), body)
 
 
